@@ -78,7 +78,7 @@ impl Default for GenCfg {
     }
 }
 
-pub const STR_POOL: &[&str] = &["a", "b", "x", "ab/cd", "a.b", "", "h\u{e9}llo", "\u{4e2d}", "{}", "f(x)", "x y", "aXbXc"];
+pub const STR_POOL: &[&str] = &["a", "b", "x", "ab/cd", "a.b", "", "h\u{e9}llo", "\u{4e2d}", "{}", "f(x)", "x y", "aXbXc", "l1\nl2", "t\tb"];
 pub const RE_POOL: &[&str] = &["a", "[a-z]+", "/", "(a)|(b)", "x(y)?", "[^/]+", "\\.", "(\\w)(\\w)?", "b$", "\u{e9}", "[0-9]+", "\\s+", "(a|ab)(c)?", "\\b\\w"];
 pub const ATTR_POOL: &[&str] = &["a", "b", "c", "d", "kind", "label"];
 pub const SCOPED_POOL: &[&str] = &["sn", "sm", "sv"];
@@ -587,6 +587,24 @@ impl<'a> Gen<'a> {
                 let v = self.rng.pick(&muts).clone();
                 let (e, _, _) = self.expr(v.ty, false, 0);
                 Some(json!({"k": "set", "var": {"k": "var", "name": v.name}, "value": e}))
+            }
+            8 if self.rng.chance(1, 3) && self.vars_of(Ty::Gn, false).len() >= 3 => {
+                // fan-out: several edges from one node, then an attribute on each of them (in another order)
+                let vs = self.vars_of(Ty::Gn, false);
+                let src = self.rng.pick(&vs).name.clone();
+                let mut sinks: Vec<String> = vs.iter().map(|v| v.name.clone()).collect();
+                self.rng.shuffle(&mut sinks);
+                sinks.truncate(3);
+                let mut arms = Vec::new();
+                for t in &sinks {
+                    arms.push(json!({"k": "edge", "src": Self::var_expr(&src), "dst": Self::var_expr(t)}));
+                }
+                self.rng.shuffle(&mut sinks);
+                for t in &sinks {
+                    let name = self.fresh_name("f");
+                    arms.push(json!({"k": "attre", "src": Self::var_expr(&src), "dst": Self::var_expr(t), "attrs": [{"name": name, "value": self.attr_value()}]}));
+                }
+                Some(json!({"k": "if", "arms": [{"conds": [{"k": "bool", "value": {"k": "true"}}], "stmts": arms}]}))
             }
             8..=10 => {
                 // edge
